@@ -25,6 +25,9 @@ type Case struct {
 	// Poison: a Marshal that fails half-way (a collection whose last member cannot
 	// be written) precedes the calls under test; it must leave nothing behind.
 	Poison bool `json:"poison,omitempty"`
+	// Deep: the geometry is also written and parsed wrapped in this many nested
+	// GEOMETRYCOLLECTIONs (WKT expresses any depth).
+	Deep int `json:"deep,omitempty"`
 }
 
 func genCase(t *rapid.T) Case {
@@ -37,7 +40,7 @@ func genCase(t *rapid.T) Case {
 	if err != nil {
 		panic(err)
 	}
-	return Case{G: *g, Text: text, Route: rapid.IntRange(0, int(model.NumRoutes)-1).Draw(t, "route"), Poison: rapid.IntRange(0, 3).Draw(t, "poison") == 0}
+	return Case{G: *g, Text: text, Route: rapid.IntRange(0, int(model.NumRoutes)-1).Draw(t, "route"), Poison: rapid.IntRange(0, 3).Draw(t, "poison") == 0, Deep: rapid.SampledFrom([]int{0, 0, 0, 0, 0, 0, 0, 0, 0, 0, 0, 0, 0, 0, 0, 0, 0, 0, 0, 0, 0, 0, 0, 0, 5, 16, 31, 32, 33, 64, 65, 130, 257}).Draw(t, "deep")}
 }
 
 func same(what string, want *model.G, got *model.G) error {
@@ -115,6 +118,34 @@ func prop(c Case) error {
 	}
 	if err := same(fmt.Sprintf("Unmarshal(spelling %q)", clip(c.Text)), g, spm); err != nil {
 		return err
+	}
+	// the geometry at the bottom of a tower of nested collections
+	if c.Deep > 0 && !(g.IsCollection() && g.Empty()) {
+		var top geom.T = t
+		gm := g.Clone()
+		for i := 0; i < c.Deep; i++ {
+			w := geom.NewGeometryCollection()
+			if err := w.Push(top); err != nil {
+				return fmt.Errorf("harness: cannot nest: %v", err)
+			}
+			top = w
+			gm = &model.G{Kind: model.GeometryCollection, Members: []model.G{*gm}}
+		}
+		dtext, err := wkt.Marshal(top)
+		if err != nil {
+			return fmt.Errorf("wkt.Marshal of %d nested collections: %v", c.Deep, err)
+		}
+		dback, err := wkt.Unmarshal(dtext)
+		if err != nil {
+			return fmt.Errorf("wkt.Unmarshal rejects the encoder's text of %d nested collections: %v", c.Deep, err)
+		}
+		dm, err := model.FromGeom(dback)
+		if err != nil {
+			return fmt.Errorf("parsed geometry not well formed: %v", err)
+		}
+		if err := same(fmt.Sprintf("%d nested collections", c.Deep), gm, dm); err != nil {
+			return err
+		}
 	}
 	// what Unmarshal returned is the caller's: another text parsed afterwards changes nothing in it
 	for _, o := range []string{"LINESTRING Z (1 2 3, 4 5 6, 7 8 9)", "MULTIPOLYGON (((0 0, 9 0, 9 9, 0 0)), EMPTY)", "POINT (7 7)"} {
